@@ -166,3 +166,130 @@ mut("c13_mi_from_prior_entropy", CO, '''        p_y = self.affine_marginal_trans
             Sigma_new: The new covariance matrix
 
 ''', ["C13"])
+# ---- C04
+mut("c04_det_lemma_sign", FA, '''                ln_det_Sigma_new = measure.ln_det_Sigma[:, None] - jnp.log(denominator)''',
+    '''                ln_det_Sigma_new = measure.ln_det_Sigma[:, None] + jnp.log(denominator)''', ["C04", "C15"])
+mut("c04_sherman_morrison_no_g", FA, '''                nominator = self.g[:, None, None] * jnp.einsum(
+                    "ab,ac->abc", Sigma_v, Sigma_v
+                )''', '''                nominator = jnp.einsum(
+                    "ab,ac->abc", Sigma_v, Sigma_v
+                )''', ["C04", "C15"])
+mut("c04_linear_multiply_logdet_sign", FA, '''                ln_det_Sigma_new = jnp.tile(
+                    measure.ln_det_Sigma[:, None], (1, self.R)
+                ).reshape(measure.R * self.R)
+                ln_det_Lambda_new = -ln_det_Sigma_new
+            new_density_dict.update(
+                {
+                    "Sigma": Sigma_new,
+                    "ln_det_Lambda": ln_det_Lambda_new,
+                    "ln_det_Sigma": ln_det_Sigma_new,
+                }
+            )
+        return new_density_dict
+
+    def _hadamard_with_measure(
+        self, measure: "GaussianMeasure", update_full: bool = True
+    ) -> Dict:
+        r"""Compute the hadamard (componentwise) product between the current factor and a Gaussian measure :math:`u(X)`.
+
+             Returns''', '''                ln_det_Sigma_new = jnp.tile(
+                    measure.ln_det_Sigma[:, None], (1, self.R)
+                ).reshape(measure.R * self.R)
+                ln_det_Lambda_new = ln_det_Sigma_new
+            new_density_dict.update(
+                {
+                    "Sigma": Sigma_new,
+                    "ln_det_Lambda": ln_det_Lambda_new,
+                    "ln_det_Sigma": ln_det_Sigma_new,
+                }
+            )
+        return new_density_dict
+
+    def _hadamard_with_measure(
+        self, measure: "GaussianMeasure", update_full: bool = True
+    ) -> Dict:
+        r"""Compute the hadamard (componentwise) product between the current factor and a Gaussian measure :math:`u(X)`.
+
+             Returns''', ["C04", "C15"])
+mut("c04_slice_stale_logdet", ME, '''        if self.Sigma is not None:
+            new_measure.Sigma = jnp.take(self.Sigma, indices, axis=0)
+            new_measure.ln_det_Sigma = jnp.take(self.ln_det_Sigma, indices, axis=0)
+            new_measure.ln_det_Lambda = jnp.take(self.ln_det_Lambda, indices, axis=0)
+        return new_measure
+
+    def _prepare_integration''', '''        if self.Sigma is not None:
+            new_measure.Sigma = jnp.take(self.Sigma, indices, axis=0)
+            new_measure.ln_det_Sigma = jnp.take(self.ln_det_Sigma, jnp.zeros_like(indices), axis=0)
+            new_measure.ln_det_Lambda = jnp.take(self.ln_det_Lambda, indices, axis=0)
+        return new_measure
+
+    def _prepare_integration''', ["C04", "C12"])
+mut("c04_product_keeps_lnZ", ME, '''        new_measure = GaussianMeasure(Lambda=Lambda_new, nu=nu_new, ln_beta=ln_beta_new)
+        if self.Sigma is not None:
+            new_measure._prepare_integration()
+        return new_measure''', '''        new_measure = GaussianMeasure(Lambda=Lambda_new, nu=nu_new, ln_beta=ln_beta_new)
+        if self.Sigma is not None:
+            new_measure._prepare_integration()
+            if self.lnZ is not None:
+                new_measure.lnZ = self.lnZ[:1]
+        return new_measure''', ["C04"])
+# ---- C12
+mut("c12_condition_on_x_tile_axes", CO, '''        ln_det_Sigma_new = jnp.tile(self.ln_det_Sigma[:, None], (1, N)).reshape(
+            self.R * N
+        )
+        return pdf.GaussianPDF(
+            Sigma=Sigma_new,
+            mu=mu_new,
+            Lambda=Lambda_new,
+            ln_det_Sigma=ln_det_Sigma_new,
+        )
+
+    def set_y(self, y: Float[Array, "N Dy"], **kwargs) -> factor.ConjugateFactor:''', '''        ln_det_Sigma_new = jnp.tile(self.ln_det_Sigma[None, :], (N, 1)).reshape(
+            self.R * N
+        )
+        return pdf.GaussianPDF(
+            Sigma=Sigma_new,
+            mu=mu_new,
+            Lambda=Lambda_new,
+            ln_det_Sigma=ln_det_Sigma_new,
+        )
+
+    def set_y(self, y: Float[Array, "N Dy"], **kwargs) -> factor.ConjugateFactor:''', ["C12", "C02"])
+mut("c12_update_mu_not_nu", PD, '''        self.lnZ = self.lnZ.at[indices].set(density.lnZ)
+        self.nu = self.nu.at[indices].set(density.nu)
+        self.ln_beta = self.ln_beta.at[indices].set(density.ln_beta)
+
+    def get_marginal(self, dim_x''', '''        self.lnZ = self.lnZ.at[indices].set(density.lnZ)
+        self.ln_beta = self.ln_beta.at[indices].set(density.ln_beta)
+
+    def get_marginal(self, dim_x''', ["C12", "C04"])
+mut("c12_kl_uses_first_component", PD, "dmu = p1.mu - self.mu", "dmu = p1.mu - self.mu[:1]", ["C12", "C13"])
+# ---- C15
+mut("c15_invert_diagonal_logdet", LA, "    ln_det_A = jnp.sum(jnp.log(A.diagonal(axis1=1, axis2=2)), axis=1)\n    return A_inv, ln_det_A",
+    "    ln_det_A = -jnp.sum(jnp.log(A.diagonal(axis1=1, axis2=2)), axis=1)\n    return A_inv, ln_det_A", ["C15", "C02"])
+mut("c15_identity_marginal_sigma_twice", CO, '''        Sigma_y = (self.Sigma[:, None] + p_x.Sigma[:, None]).reshape(''', '''        Sigma_y = (2.0 * self.Sigma[:, None] + p_x.Sigma[:, None]).reshape(''', ["C15", "C08"])
+# ---- C11 / C14
+mut("c11_product_lnbeta_mean", FA, '''        ln_beta_new = jnp.sum(self.ln_beta, axis=0, keepdims=True)
+        return ConjugateFactor(Lambda=Lambda_new, nu=nu_new, ln_beta=ln_beta_new)''', '''        ln_beta_new = jnp.mean(self.ln_beta, axis=0, keepdims=True)
+        return ConjugateFactor(Lambda=Lambda_new, nu=nu_new, ln_beta=ln_beta_new)''', ["C11", "C10"])
+mut("c14_kernel_cross_factor", AC, '''            quadratic_integral
+            - 2 * lin_kernel_integral
+            + kernel_kernel_integral
+            + constant
+        )
+        return log_expectation
+
+    def integrate_log_conditional_y(
+        self, p_x: pdf.GaussianPDF, y: Float[Array, "R Dy"] = None, **kwargs
+    ) -> Union[callable, Float[Array, "R Dy"]]:''', '''            quadratic_integral
+            - lin_kernel_integral
+            + kernel_kernel_integral
+            + constant
+        )
+        return log_expectation
+
+    def integrate_log_conditional_y(
+        self, p_x: pdf.GaussianPDF, y: Float[Array, "R Dy"] = None, **kwargs
+    ) -> Union[callable, Float[Array, "R Dy"]]:''', ["C14"])
+mut("c14_log_factor_linear_term", FA, '''        linear_integral = jnp.einsum("ab,ab->a", self.nu, phi_x.integrate("x"))''',
+    '''        linear_integral = jnp.einsum("ab,ab->a", self.nu, phi_x.integrate("x")) * 0.5''', ["C14"])
